@@ -11,7 +11,7 @@ CONSUMER_MODES = ["mf_q", "mf_dt", "mf_tr", "q_dt", "q_tr", "hex", "hex_free"]
 
 @st.composite
 def heat_net(draw, max_n=6, labels=True, feeders=None, allow_oos=False, max_sections=4, const_fluid=False,
-             allow_mesh=True, modes=None, allow_neg_q=True, allow_makeup=False, second_feeder=True):
+             allow_mesh=True, modes=None, allow_neg_q=True, allow_makeup=False, second_feeder=True, booster=False):
     n = draw(st.integers(1, max_n))
     t0 = draw(fl(300.0, 330.0))          # start temperature of all junctions
     tf = draw(fl(340.0, 390.0))          # feed temperature
@@ -123,6 +123,19 @@ def heat_net(draw, max_n=6, labels=True, feeders=None, allow_oos=False, max_sect
                          "in_service": True})
         elements.append({"table": "ext_grid", "index": 1, "junction": n, "p_bar": p_flow - draw(fl(0.5, 3.0)),
                          "t_k": t0, "type": "p", "in_service": True})
+    if booster and n >= 2:
+        # a booster pump (pump component with a characteristic curve) at the head of the first supply pipe: its volume flow
+        # and lift depend on the density at the temperature actually reached there
+        bj = max(j["index"] for j in juncs) + 1
+        first = next((e for e in elements if e["table"] == "pipe" and {e["from_junction"], e["to_junction"]} == {0, 1}), None)
+        if first is not None:
+            juncs.append({"index": bj, "pn_bar": p_flow, "tfluid_k": t0, "height_m": 0.0, "in_service": True})
+            if first["from_junction"] == 0:
+                first["from_junction"] = bj
+            else:
+                first["to_junction"] = bj
+            elements.append({"table": "pump", "index": 0, "from_junction": 0, "to_junction": bj,
+                             "std_type": draw(st.sampled_from(["P1", "P2", "P3"])), "in_service": True})
     feeder2 = None
     if second_feeder and feeder == "cpp" and draw(st.integers(0, 3)) == 0:
         # a second generator with its own feed temperature: a mass-flow pump in parallel to the main pump (same flow and
